@@ -20,3 +20,9 @@ func init() {
 	props["C37d"] = &propCfg{Engine: "nodesim", Test: "TestC37d", Level: "exploration", Overlay: "simrt",
 		Quick: tierCfg{Runs: 320, JobSize: 10, BudgetS: 150}, Thorough: tierCfg{Runs: 16000, JobSize: 25, BudgetS: 1500}}
 }
+
+func init() {
+	// single-validator-node half of C18 (registered under its own key for development)
+	props["C18s"] = &propCfg{Engine: "nodesim", Test: "TestC18Solo", Level: "exploration", Overlay: "pin",
+		Quick: tierCfg{Runs: 1600, JobSize: 100, BudgetS: 150}, Thorough: tierCfg{Runs: 64000, JobSize: 200, BudgetS: 1500}}
+}
